@@ -6,12 +6,13 @@ package tls
 // always returns nil, so every guarded call site is dead code.
 
 type verifServerHooks struct {
-	RewriteHandshake        func(data []byte) []byte
-	LegacyVersionOnly       bool
-	SuppressDowngradeCanary bool
-	ForceSuiteTLS13         uint16
-	TolerateCookieEcho      bool
-	ForceCurveTLS12         CurveID
+	RewriteHandshake          func(data []byte) []byte
+	LegacyVersionOnly         bool
+	SuppressDowngradeCanary   bool
+	ForceSuiteTLS13           uint16
+	TolerateCookieEcho        bool
+	ForceCurveTLS12           CurveID
+	ClientEncryptedExtensions func(raw []byte)
 }
 
 func verifServerHook(c *Conn) *verifServerHooks { return nil }
